@@ -19,6 +19,8 @@ EXTENDS ID, ExprMath, CF, IDStar, Json, IOUtils
 CONSTANTS Seeds, Layout, Ternary, Fam     \* Fam: "S" stochastic | "F" functional models   \* Layout: "edge" | "clique"; Ternary: set of nodes with 3 values
 
 Trace == JsonDeserialize(IOEnv.TRACE_FILE)
+\* expensive diagnostic fields (never part of a verdict) are computed only when the harness asks for them
+Diag == "TV_DIAG" \in DOMAIN IOEnv /\ IOEnv.TV_DIAG = "1"
 
 VARIABLE gi
 vars == <<gi>>
@@ -249,7 +251,7 @@ JudgeStar(G, Ws, r) ==
   [id |-> v.id, ok |-> v.ok, clause |-> v.clause, c |-> v.c,
    ref |-> IF IsFail(IDStarRef(G, ToSet(r.ev))) THEN "refuses" ELSE "answers"]
 \* IDC*: P(outcomes and conditions) / P(conditions); an impossible condition must be rejected, not answered
-JudgeCStar(G, Ws, r) ==
+JudgeCStar0(G, Ws, r) ==
   LET joint == EventTerm(r.ev \o r.cond, 0)
       cond  == EventTerm(r.cond, 0)
       truth == FT(joint, cond)
@@ -269,6 +271,13 @@ JudgeCStar(G, Ws, r) ==
                  IF c.nbad > 0 THEN Verdict(r.id, FALSE, "value", c)
                  ELSE IF c.ndef = 0 THEN Verdict(r.id, FALSE, "undefined-everywhere", c)
                  ELSE Verdict(r.id, TRUE, "ok", c)
+\* (diagnostic field: does the reference IDC* of IDStar.tla answer, refuse, or call the condition impossible)
+JudgeCStar(G, Ws, r) ==
+  LET v == JudgeCStar0(G, Ws, r) IN
+  [id |-> v.id, ok |-> v.ok, clause |-> v.clause, c |-> v.c,
+   ref |-> IF ~Diag THEN "not-computed"
+           ELSE LET ref == IDCStarRef(G, ToSet(r.ev), ToSet(r.cond)) IN
+                IF IsFail(ref) THEN "refuses" ELSE IF IsUndef(ref) THEN "undefined" ELSE "answers"]
 \* make_counterfactual_graph: out = [k |-> "graph", nodes |-> <<var>>, d |-> << <<i, j>> >>, b |-> ..., ev |-> event]
 JudgeCG(G, Ws, r) ==
   LET truth == EventTerm(r.ev, 0) IN
